@@ -38,6 +38,8 @@ ColInstantOK(e) == LET i == Instant(e.c) IN
                         TicksOK(i, p, [days |-> got.days, sec |-> got.sec, frac |-> got.ns \div Pow10(9 - p)])
                         /\ got.ns % Pow10(9 - p) = 0
 
+\* days and weeks in a zone with daylight saving: the wall clock of the zone is kept, the calendar day moves by n (or 7n)
+IntervalZoneOK(e) == e.panic = "" /\ e.sameLoc /\ CivilEq(e.back, AddInterval(e.c, e.scale, e.n))
 IntervalOK(e) == e.panic = "" /\ CivilEq(e.back, AddInterval(e.c, e.scale, e.n)) /\ e.back.off = e.c.off
 
 \* wide integers and addresses, as byte strings
@@ -55,6 +57,7 @@ LineOK == CASE Ev.ev = "ToDate" -> ToDayOK(Ev, DateMin, DateMax) /\ FromDayOK(Ev
             [] Ev.ev = "FromDateTime64" -> FromDT64OK(Ev)
             [] Ev.ev = "ColInstant" -> ColInstantOK(Ev)
             [] Ev.ev = "Interval" -> IntervalOK(Ev)
+            [] Ev.ev = "IntervalZone" -> IntervalZoneOK(Ev)
             [] Ev.ev = "Widen" -> WidenOK(Ev)
             [] Ev.ev = "IPv4" -> IPv4OK(Ev)
             [] Ev.ev = "IPv6" -> IPv6OK(Ev)
